@@ -171,6 +171,19 @@ theorem lsq_minimiser_exact {Θ X : Type} (F : Θ → X → ℝ) (pts : List (X 
   have := sum_sq_eq_zero pts (fun p => F θ p.1 - p.2) hz p hp
   linarith
 
+/-- the same for the three families `fit_origin` actually fits (`_plane`, `_parabola`,
+`_bezier_two` as modelled by `surfaceF`): origins lying exactly on a plane / parabola / degree-2
+Bézier surface are reproduced by every least-squares minimiser of that family. -/
+theorem lsq_variants_exact (kind : FitKind) (pts : List ((ℝ × ℝ) × ℝ)) (θ θ₀ : List ℝ)
+    (hon : ∀ p ∈ pts, surfaceF kind θ₀ p.1 = p.2)
+    (hmin : ∀ θ', ssr (surfaceF kind) θ pts ≤ ssr (surfaceF kind) θ' pts) :
+    ∀ p ∈ pts, surfaceF kind θ p.1 = p.2 :=
+  lsq_minimiser_exact (surfaceF kind) pts θ θ₀ hon hmin
+
+/-- `surfaceF .plane [mx, my, b]` is the plane `mx·x + my·y + b` -/
+example (mx my b x y : ℝ) : surfaceF .plane [mx, my, b] (x, y) = mx * x + my * y + b := by
+  simp [surfaceF]
+
 /-! ### 3. integer shift = circular roll -/
 
 /-- **Integer shift**: for a detector of at least 2 × 2 pixels, an integer fitted origin
